@@ -174,3 +174,66 @@ pub fn goal_to_horn(g: &Goal<ChalkIr>, env: &mut Vec<Bind>, fresh: &mut usize) -
         _ => return None,
     })
 }
+
+/// The peeled, canonical query (`into_peeled_goal`): environment clauses become hypotheses,
+/// canonical existential variables `^0.k` become `(var k)`, placeholders opaque constants.
+/// Returns (goal, number of query variables).
+pub fn peeled_to_horn(q: &UCanonical<InEnvironment<Goal<ChalkIr>>>) -> Option<(Sexp, usize)> {
+    let binders = &q.canonical.binders;
+    if binders.iter(I).any(|b| !matches!(b.kind, VariableKind::Ty(TyVariableKind::General))) {
+        return None;
+    }
+    let n = binders.len(I);
+    let v = &q.canonical.value;
+    let mut env = vec![Bind::Vars];
+    let mut hyps = vec![];
+    for c in v.environment.clauses.iter(I) {
+        let d = c.data(I);
+        if d.0.binders.len(I) != 0 {
+            return None;
+        }
+        let imp = d.0.skip_binders();
+        if !imp.conditions.is_empty(I) || !imp.constraints.is_empty(I) {
+            return None;
+        }
+        env.push(Bind::Terms(vec![]));
+        let a = match &imp.consequence {
+            DomainGoal::FromEnv(FromEnv::Trait(tr)) => atom_of_trait_ref(tr, &env),
+            DomainGoal::Holds(WhereClause::Implemented(tr)) => atom_of_trait_ref(tr, &env),
+            _ => None,
+        };
+        env.pop();
+        hyps.push(a?);
+    }
+    let g = goal_to_horn(&v.goal, &mut env, &mut 0)?;
+    let g = if hyps.is_empty() { g } else { tagged("implies", vec![list(hyps), g]) };
+    Some((g, n))
+}
+
+/// `(name arity)` list of the program's type constructors, plus two scalars and an opaque constant
+pub fn signature(p: &Program) -> Sexp {
+    let mut v = vec![];
+    for (id, d) in &p.adt_data {
+        v.push(list(vec![atom(&format!("adt{}", id.0.index)), nat(d.binders.len(I))]));
+    }
+    v.push(list(vec![atom(&format!("scalar{}", scalar_code(Scalar::Uint(UintTy::U32)))), nat(0)]));
+    v.push(list(vec![atom("!c0"), nat(0)]));
+    list(v)
+}
+
+/// a solver answer as the wire `Answer` of Contract.lean; None = outside the fragment
+pub fn answer_to_horn(r: &Option<chalk_solve::Solution<ChalkIr>>) -> Option<Sexp> {
+    use chalk_solve::{Guidance, Solution};
+    let subst = |s: &Substitution<ChalkIr>| -> Option<Sexp> { Some(list(tms_of_subst(s, &[Bind::Vars])?)) };
+    Some(match r {
+        None => atom("none"),
+        Some(Solution::Unique(c)) => {
+            if !c.value.constraints.is_empty(I) {
+                return None;
+            }
+            tagged("unique", vec![subst(&c.value.subst)?])
+        }
+        Some(Solution::Ambig(Guidance::Definite(c))) => tagged("definite", vec![subst(&c.value)?]),
+        Some(Solution::Ambig(_)) => atom("ambig"),
+    })
+}
